@@ -655,9 +655,11 @@ func (rn *Runner) Step(in Input) error {
 		}
 		rn.recvDead = true
 		before, g := rn.strm.RecvEntered(), -1
-		code := codes.Unavailable
-		if in.Code == "Internal" {
-			code = codes.Internal
+		// whatever status the stream dies with, it is a failure of the session
+		code := map[string]codes.Code{"Internal": codes.Internal, "Canceled": codes.Canceled, "DeadlineExceeded": codes.DeadlineExceeded,
+			"Aborted": codes.Aborted, "ResourceExhausted": codes.ResourceExhausted, "Unknown": codes.Unknown}[in.Code]
+		if code == codes.OK {
+			code = codes.Unavailable
 		}
 		rn.strm.Fail(status.Error(code, "injected"))
 		rn.waitRecv(before, g)
@@ -910,7 +912,8 @@ func Random(r *rand.Rand, n int) []Input {
 		case x < 87 && started:
 			ins = append(ins, Input{A: "sendfail", N: r.Intn(3)})
 		case x < 90 && started:
-			ins = append(ins, Input{A: []string{"recvfail", "recveof"}[r.Intn(2)], Code: "Unavailable"})
+			ins = append(ins, Input{A: []string{"recvfail", "recveof"}[r.Intn(2)],
+				Code: []string{"Unavailable", "Canceled", "Internal", "DeadlineExceeded", "Aborted", "ResourceExhausted", "Unknown"}[r.Intn(7)]})
 			// keep queueing and waiting afterwards
 			for i := 0; i < 2+r.Intn(8); i++ {
 				ins = append(ins, Input{A: "q", M: mk()})
